@@ -51,6 +51,44 @@ CLAIMED = {
             "(unsynced page) semantics are not simulated. F24 (truncate window) is listed in known_findings.json as open.",
             "Lean 4 proof (+ machine-checked counterexample for the open finding) + differential correspondence with the compiled C",
             "DESIGN.md §6 C20, docs/C20.md"),
+    "C04": ("proof",
+            "Lean theorems over the daemon model (Cjet.Daemon.Model, a message-level transcription of parse/element/fetch/router/peer.c): "
+            "wf_invariant (index and element lists in sync, paths unique, owners consistent) for every reachable state, findElement_iff_abs, "
+            "add_spec / add_success_iff, remove_spec, change_spec, set_call_refusals, error_means_unchanged (any request answered with an error "
+            "leaves the element abstraction equal), step_elems_only_by_requester_or_close — for all configurations, histories, JSON values and "
+            "oracle values. Tie: the whole daemon (every cjet source file except main.c) linked against a simulated kernel (-Wl,--wrap) runs generated and directed sessions under ASan/UBSan; the Lean daemon model runs the same message-level operations (send results and table refusals observed on the implementation are its oracle inputs); outputs per connection, closes, timer operations and the full state image at every quiescent point (peers, elements, values, fetcher tables, routing tables) must agree; a python reference finite map judges add/remove/change outcomes on the implementation's own responses.",
+            TB + "cJSON parse/print are outside the model; refusals of the hopscotch path index are an oracle input (C17 characterises them).",
+            "Lean 4 proof over executable model + differential correspondence with the compiled daemon", "DESIGN.md §6 C04, docs/C04-proofs.md"),
+    "C09": ("proof",
+            "Lean theorems over a model of buffered_socket.c's reader and its clients (raw length/message framing, line reader, WebSocket header "
+            "reader): deliveries_eq_spec (for every client, capacity, initial fill and every event list the observable equals a specification on "
+            "the byte stream alone), chunking_irrelevant, prompt, ptrs_in_bounds, raw_framing_spec, raw_zero_skipped, raw_too_long_closes, "
+            "raw_message_exact, own_bytes_only, line_spec, line_full_buffer_errors. Tie: the real buffered_socket.c + socket_peer.c over a scripted "
+            "socket_read (asked sizes, deliveries, pointers and buffer compared after every event); exhaustive at capacity 6, seeded differential at "
+            "512/21/16/8; chunking-independence is also evaluated directly on the real code.",
+            TB + "Batching of readiness events across connections is exercised on the whole daemon by the C05/C06 families, not here.",
+            "Lean 4 proof over executable model + differential correspondence with the compiled C", "DESIGN.md §6 C09, docs/C09.md"),
+    "C12": ("proof",
+            "40 Lean theorems over a model of websocket.c (header machine, dispatcher with the daemon's callback set regenerated from source, unmask "
+            "fast path, server frame construction, close handshake, handshake decision, base64, executable SHA-1): server_frame_wellformed, "
+            "header_spec, segmentation_independent, unmask_fast_eq_bytewise (every alignment/length/key), decode_encode(_masked), pong_echo, the "
+            "close-code table (1002/1003/1007/1011 per rule), data_fragments_processed_or_refused, handshake_valid_101, handshake_refusals, "
+            "base64_decode_encode, accept_value_rfc6455_sample. Tie: real websocket.c/websocket_peer.c/http_parser/base64/sha1 over a stub reader "
+            "and over the real buffered_socket.c; full header matrix (16 opcodes x FIN x RSV x MASK x length forms and boundaries), fragment "
+            "sequences, close frames of every status class, handshake permutations; a python RFC 6455 reference judges the implementation's output.",
+            TB + "http-parser's tokenisation is an observed oracle (the model consumes the callback sequence the real parser produced); "
+            "permessage-deflate negotiation is C19; utf8 validity of close reasons is a parameter tied to the real validator. A request without "
+            "Sec-WebSocket-Key/Version is still answered 101 (F32): outside the property as stated, reported in the evidence.",
+            "Lean 4 proof over executable model + differential correspondence with the compiled C", "DESIGN.md §6 C12, docs/C12.md"),
+    "C17": ("proof",
+            "Lean refinement proof for the hopscotch table of hashtable.h, transcribed loop for loop, for every order, key type and hash function "
+            "(collisions included): wf_run, get_iff_maps, put_ok, put_full, remove_spec, others_undisturbed, run_refines_map (any operation sequence "
+            "from the empty table behaves like an association map), full_reason, full_iff_small (N<=64), no_capacity_loss, sweep_spec. Tie: the "
+            "real DECLARE_HASHTABLE_* macros for orders 2..13 and all three key types, complete slot dump compared after every operation; "
+            "exhaustive for orders 2-4 over a colliding key universe (breadth-first over slot images), seeded long histories beyond; a python dict "
+            "reference judges the implementation.",
+            TB + "The lock-free reader claims of the header are not modelled; char is assumed signed in the string hash.",
+            "Lean 4 proof (refinement to a finite map) + differential correspondence with the compiled C", "DESIGN.md §6 C17, docs/C17.md"),
 }
 
 NOT_YET = "machinery under construction in this round; not yet claimed"
